@@ -16,7 +16,7 @@ Local Open Scope string_scope.
 Local Open Scope list_scope.
 From OV Require Import Base.Bytes Base.Utf8 Base.ErrClass Gen.Safety Model.Latch Proofs.Latch Model.Safety
   Proofs.SafetyInvoke Proofs.SafetyValidate Proofs.SafetyJson Proofs.SafetyCsv Proofs.SafetyRlf
-  Proofs.SafetyFixed Proofs.SafetyReads Proofs.SafetyMisc.
+  Proofs.SafetyFixed Proofs.SafetyReads Proofs.SafetyMisc Proofs.SafetyFaultReaders.
 (* C05's model: names qualified (Model.Hier and Model.Safety both have an [outcome]) *)
 From OV Require Model.Hier Model.HierSpec Proofs.HierInst Proofs.HierMain Proofs.HierTerm Proofs.SafetyHier.
 
@@ -163,12 +163,14 @@ Theorem csv_delim_progress :
   stdcsv_delim_usable (fst (decode_rune d)) = true.
 Proof. exact csv_delim_progress_lemma. Qed.
 
-(* jumpTo after fix 35247f5 ends within (remaining lines + 1) iterations for every row index, every
-   reader state, every record layout [span] consuming >= 1 line per Read, every delimiter (usable
-   or not) and every failure pattern of the input reader. *)
+(* jumpTo as it is in the source now (Gen/Safety.v: csv_jumpto_fails_on_non_parse_error, fix
+   35247f5) ends within (remaining lines + 1) iterations for every row index, every reader state,
+   every record layout [span] consuming >= 1 line per Read, every delimiter (usable or not) and
+   every failure pattern of the input reader. *)
 Theorem csv_jump_terminates :
   forall span io_fails, (forall s, 0 < lines_left s -> 1 <= span s <= lines_left s) ->
-  forall usable row s, jump_to span io_fails (lines_left s + 1) usable row s <> JumpOutOfFuel.
+  forall usable row s,
+    jump_gen span io_fails csv_jumpto_fails_on_non_parse_error (lines_left s + 1) usable row s <> JumpOutOfFuel.
 Proof. exact csv_jump_terminates_lemma. Qed.
 
 (* The pre-fix loop: an unusable delimiter spins for every fuel (F15); a persistently failing input
@@ -180,6 +182,81 @@ Example csv_delim_hang_old_refuted :
   /\ jump_to (fun _ => 1) (fun _ => true) 4 true 4000 (mkCsv 0 3) = JumpFailed
   /\ jump_to (fun _ => 1) (fun _ => false) 4 false 2 (mkCsv 0 3) = JumpFailed.
 Proof. exact csv_delim_hang_old_refuted_lemma. Qed.
+
+(* ---- failing input reader: the old csv reader and the fixed-length by_rows reader -------------- *)
+(* The old csv reader (Read / checkHeader / jumpTo), at line level, with the three error
+   classification shapes as extracted from the source (Read returns a latched readErr first; Read
+   latches a non-ParseError; jumpTo fails out on a non-ParseError).  For every record layout, every
+   pattern of csv.ParseErrors, target-xpath matches and header outcome, every header / data row
+   index, every reader state, over a source of [lines_left] good lines followed by a clean end or
+   (fault = true) a persistent failure: every Read ends; a failure is never turned into io.EOF;
+   a Read that is not terminal (a record, a per-record ParseError) consumed >= 1 line; hence the
+   terminal result -- io.EOF, ErrInvalidHeader or the latched read error -- comes within
+   (lines + 1) Reads. *)
+Theorem csv_fault_reads_bound :
+  forall span parse_err matches header_ok fault,
+  (forall s, 0 < lines_left s -> 1 <= span s <= lines_left s) ->
+  forall hdr data r,
+  let read := csv_reader_read span (tail_fails fault) parse_err matches header_ok
+                csv_read_returns_latched_first csv_read_latches_non_parse_error csv_jumpto_fails_on_non_parse_error in
+  (forall r0, let '(r', c) := read (lines_left (cr_st r0) + 1) true hdr data r0 in
+     c <> CrOutOfFuel /\ (c = CrEOF -> fault = false) /\
+     (cres_terminal c = false -> lines_left (cr_st r') < lines_left (cr_st r0))) /\
+  exists n, reads_to_terminal crd
+              (fun r0 => let '(r', c) := read (lines_left (cr_st r0) + 1) true hdr data r0 in (r', cres_terminal c))
+              (lines_left (cr_st r) + 1) r = Some n
+            /\ 1 <= n <= lines_left (cr_st r) + 1.
+Proof. exact csv_fault_reads_bound_lemma. Qed.
+
+(* before F10 (no latch in Read): a continuable error for ever; before N10 (jumpTo ignores the
+   failure): the first Read needs as many steps as the row index *)
+Example csv_fault_old_refuted :
+  let r0 := mkCrd (mkCsv 0 0) true false in
+  (forall n, reads_to_terminal crd
+     (fun r => let '(r', c) := csv_reader_read (fun _ => 1) (tail_fails true) (fun _ => false) (fun _ => true) (fun _ => true)
+                                  true false true 5 true None 1 r in (r', cres_terminal c)) n r0 = None)
+  /\ snd (csv_reader_read (fun _ => 1) (tail_fails true) (fun _ => false) (fun _ => true) (fun _ => true)
+            true true false 50 true None 100 (mkCrd (mkCsv 0 0) false false)) = CrOutOfFuel
+  /\ snd (csv_reader_read (fun _ => 1) (tail_fails true) (fun _ => false) (fun _ => true) (fun _ => true)
+            true true true 1 true None 100 (mkCrd (mkCsv 0 0) false false)) = CrLatched.
+Proof. exact csv_fault_old_refuted_lemma. Qed.
+
+(* The old fixed-length reader with a by_rows envelope: for every by_rows >= 1 (what rows_validated
+   gives for an accepted schema), every target-xpath pattern, every number of lines and both kinds
+   of end, with the condition of the raw-error return as extracted from the source: every Read
+   ends, the input error is never returned raw (continuable) and never as io.EOF, a non-terminal
+   Read consumed >= 1 line, and the terminal result comes within (lines + 1) Reads. *)
+Theorem fixed_by_rows_reads_bound :
+  forall rows fl_matches, 1 <= rows -> forall s,
+  let read := fl_read rows fl_matches fixed_by_rows_raw_error_only_clean_eof in
+  (forall s0, let '(s', c) := read (fl_left s0 + 1) s0 in
+     c <> FlOutOfFuel /\ c <> FlRawErr /\ (c = FlEOF -> fl_fault s0 = false) /\
+     (flres_terminal c = false -> fl_left s' < fl_left s0)) /\
+  exists n, reads_to_terminal flst (fun s0 => let '(s', c) := read (fl_left s0 + 1) s0 in (s', flres_terminal c))
+              (fl_left s + 1) s = Some n /\ 1 <= n <= fl_left s + 1.
+Proof. exact fixed_by_rows_reads_bound_lemma. Qed.
+
+(* seed C03-r43: with `i == 0` alone as the condition, a failure at an envelope boundary is
+   returned raw and every Read meets it again *)
+Example fixed_by_rows_old_refuted :
+  (forall n, reads_to_terminal flst
+     (fun s0 => let '(s', c) := fl_read 1 (fun _ => true) false (fl_left s0 + 1) s0 in (s', flres_terminal c))
+     n (mkFl 0 true) = None)
+  /\ fl_read 1 (fun _ => true) true 1 (mkFl 0 true) = (mkFl 0 true, FlFatal).
+Proof. exact fixed_by_rows_old_refuted_lemma. Qed.
+
+Example fault_readers_nonvacuous :
+  (* header row 2, data row 4, five one-line rows, then a persistent failure: rows 4 and 5 are
+     records, the third Read returns the latched error *)
+  csv_run 9 (Some 2) 4 true true (mkCrd (mkCsv 0 5) false false) = [0; 0; 4]%N
+  /\ csv_run 9 (Some 2) 4 false true (mkCrd (mkCsv 0 5) false false) = [3]%N
+  /\ csv_run 9 None 3 true true (mkCrd (mkCsv 0 1) false false) = [4]%N
+  /\ csv_run 9 None 1 true false (mkCrd (mkCsv 0 2) false false) = [0; 0; 2]%N
+  (* by_rows 2 over five lines: two envelopes, then the incomplete one is fatal; with a failure
+     at the envelope boundary: fatal, not EOF *)
+  /\ fl_run 9 2 (mkFl 5 false) = [0; 0; 3]%N /\ fl_run 9 2 (mkFl 4 false) = [0; 0; 2]%N
+  /\ fl_run 9 2 (mkFl 4 true) = [0; 0; 3]%N.
+Proof. vm_compute. repeat split; reflexivity. Qed.
 
 Example csv_delim_nonvacuous :
   csv_accepts_delimiter 0 [x2c]%byte = true /\ csv_accepts_delimiter 1 [xe6; x97; xa5]%byte = true
@@ -196,13 +273,13 @@ Theorem remove_last_filter_total : forall s : bytes,
     (out = s \/ exists n, n < List.length (runes s) /\ out = encode_runes (firstn n (runes s))).
 Proof. exact remove_last_filter_total_lemma. Qed.
 
-(* FULL STATEMENT "the result is a prefix of the input" (bytes): false of the faithful model for
-   invalid UTF-8 (Go re-encodes []rune; witness below, benign: schema strings come out of
-   encoding/json and are valid UTF-8).  Proved under the named guard utf8_roundtrip. *)
-Theorem remove_last_filter_prefix_partial : forall s : bytes,
-  encode_runes (runes s) = s (* guard utf8_roundtrip *) ->
-  exists out, remove_last_filter s = Some out /\ is_prefix out s.
-Proof. exact remove_last_filter_prefix_lemma. Qed.
+(* On every valid UTF-8 string -- every Go string that comes out of encoding/json, i.e. every
+   schema string -- the result is a byte prefix of the input.  (For arbitrary byte strings the
+   statement is false: Go re-encodes []rune, witness below; that is the whole gap.)  The round trip
+   encode_runes (runes s) = s for valid UTF-8 comes from C06's complete byte sweeps. *)
+Theorem remove_last_filter_prefix : forall s : bytes,
+  utf8_valid s = true -> exists out, remove_last_filter s = Some out /\ is_prefix out s.
+Proof. exact remove_last_filter_prefix_utf8_lemma. Qed.
 
 Example remove_last_filter_bytes_prefix_refuted :
   exists s out, remove_last_filter s = Some out /\ ~ is_prefix out s.
@@ -214,13 +291,13 @@ Theorem remove_trailing_filters_terminates : forall s : bytes,
 Proof. exact remove_trailing_filters_terminates_lemma. Qed.
 
 Example remove_last_filter_nonvacuous :
-  (* /A/B[.='3'] ; a quoted bracket ; nested ; two filters ; non-ASCII, hypothesis of _partial met *)
+  (* /A/B[.='3'] ; a quoted bracket ; nested ; two filters ; non-ASCII valid UTF-8 *)
   remove_last_filter (hx "2f412f425b2e3d2733275d") = Some (hx "2f412f42")
   /\ remove_last_filter (hx "615b2e3d275d275d") = Some (hx "61")
   /\ remove_last_filter (hx "615b625b635d5d") = Some (hx "61")
   /\ remove_trailing_filters (hx "615b315d205b325d") = Some (hx "61")
   /\ remove_last_filter (hx "c3a95be697a55d") = Some (hx "c3a9")
-  /\ encode_runes (runes (hx "c3a95be697a55d")) = hx "c3a95be697a55d"
+  /\ utf8_valid (hx "c3a95be697a55d") = true
   /\ remove_last_filter (hx "615d") = Some (hx "615d").
 Proof. vm_compute. repeat split; reflexivity. Qed.
 
